@@ -1,4 +1,583 @@
+//! C13 — a truncated file yields a prefix of the original records, then EOF or an error.
+//!
+//! E3, complete over cut points: every byte offset `0..=len` of every corpus document in scope (BGZF, BAM,
+//! BCF, CRAM, bgzipped SAM / VCF, BAI / CSI / tabix / gzi / fai / crai), for every reader API. The three
+//! > 64 KiB documents are cut at every offset within 64 bytes of a block boundary and at every 251st byte in
+//! between (stated as such in the evidence).
+//!
+//! Oracle: the log of the prefix is `r0 … r(m-1)` identical to the first m items of the log of the complete
+//! file, then `EOF` or `Err`. Additionally: raw (uncompressed) BAM / BCF record streams cut inside a record
+//! and CRAM files cut inside a container must end in `Err`; binary index readers must return `Err` for every
+//! proper prefix except where the tail is optional (`n_no_coor`, the BGZF EOF marker of CSI / tabix).
+
+use std::{
+    collections::HashSet,
+    hash::{Hash, Hasher},
+    sync::Mutex,
+};
+
+use vmc::{Outcome, Violation};
+use vnd::{Api, BgzfRead, Doc, Format, Opts, drive::bgzf_read_all};
+
+fn short(s: &str) -> String {
+    if s.len() > 300 {
+        let mut e = 300;
+        while !s.is_char_boundary(e) {
+            e -= 1;
+        }
+        format!("{}…", &s[..e])
+    } else {
+        s.to_string()
+    }
+}
+
+fn hex_full(b: &[u8]) -> String {
+    b.iter().map(|x| format!("{x:02x}")).collect()
+}
+
+fn line_kind(l: &str) -> &str {
+    let k = l.split([':', '[']).next().unwrap_or("?");
+    if k.len() > 12 { "?" } else { k }
+}
+
+fn is_terminal(l: &str) -> bool {
+    l.starts_with("end: ")
+}
+
+/// Position class of a cut in a sequence of units given by their end offsets.
+fn unit_class(ends: &[usize], first_start: usize, k: usize, unit: &str, hdr: usize, trailer: usize) -> String {
+    if k < first_start {
+        return "in-file-header".into();
+    }
+    if k == first_start || ends.binary_search(&k).is_ok() {
+        return format!("{unit}-boundary");
+    }
+    let i = ends.partition_point(|&e| e <= k);
+    let start = if i == 0 { first_start } else { ends[i - 1] };
+    let end = ends.get(i).copied().unwrap_or(usize::MAX);
+    if k - start < hdr {
+        format!("in-{unit}-header")
+    } else if end != usize::MAX && end - k <= trailer {
+        format!("in-{unit}-trailer")
+    } else {
+        format!("in-{unit}")
+    }
+}
+
+fn cut_class(doc: &Doc, k: usize) -> String {
+    if k == doc.bytes.len() {
+        return "complete".into();
+    }
+    if doc.format.is_bgzf() {
+        unit_class(&doc.item_ends, 0, k, "block", 18, 8)
+    } else if doc.format == Format::Cram {
+        let c = unit_class(&doc.item_ends, doc.header_end, k, "container", 0, 0);
+        // the last container of a noodles-written file is the 38-byte EOF container (23-byte header, 15-byte body)
+        if c == "in-container" && doc.bytes.len() - k <= 15 { "in-eof-container-body".into() } else { c }
+    } else if doc.format == Format::Crai {
+        "in-gzip-member".into()
+    } else if doc.format == Format::Fai {
+        if doc.item_ends.binary_search(&k).is_ok() || k == 0 { "line-boundary".into() } else { "in-line".into() }
+    } else if k == doc.header_end && doc.header_end < doc.bytes.len() {
+        "before-optional-tail".into()
+    } else {
+        "in-index".into()
+    }
+}
+
+/// The cut offsets of a document.
+fn cuts(doc: &Doc) -> Vec<usize> {
+    let len = doc.bytes.len();
+    if !doc.big {
+        return (0..=len).collect();
+    }
+    let mut v: Vec<usize> = (0..=len).step_by(251).collect();
+    let mut near = vec![0usize, len];
+    near.extend(doc.item_ends.iter().copied());
+    for b in near {
+        for d in 0..=64usize {
+            if b + d <= len {
+                v.push(b + d);
+            }
+            if b >= d {
+                v.push(b - d);
+            }
+        }
+    }
+    v.sort_unstable();
+    v.dedup();
+    v
+}
+
+struct Row {
+    doc: usize,
+    api: Api,
+    cuts: Vec<usize>,
+    spec: Vec<String>,
+}
+
+fn locate(_rows: &[Row], starts: &[u64], i: u64) -> (usize, usize) {
+    let r = starts.partition_point(|&s| s <= i) - 1;
+    (r, (i - starts[r]) as usize)
+}
+
+fn starts_of(rows: &[Row]) -> (Vec<u64>, u64) {
+    let mut s = Vec::new();
+    let mut t = 0u64;
+    for r in rows {
+        s.push(t);
+        t += r.cuts.len() as u64;
+    }
+    (s, t)
+}
+
+/// Checks the prefix property of `got` against `spec`; returns (symptom, expected, observed) on failure.
+fn prefix_check(spec: &[String], got: &[String]) -> Result<usize, (String, String, String)> {
+    let Some(last) = got.last() else {
+        return Err(("empty-log".into(), "a terminal line".into(), "nothing".into()));
+    };
+    if !is_terminal(last) {
+        return Err(("no-terminal".into(), "EOF or Err".into(), short(last)));
+    }
+    if last.contains(vnd::NONTERM) {
+        return Err((format!("non-termination-after-{}-items", if got.len() > 1 { "some" } else { "no" }), "EOF or Err".into(), short(last)));
+    }
+    let m = got.len() - 1;
+    let n = spec.len() - 1; // items of the complete file
+    for i in 0..m {
+        if i >= n {
+            return Err((
+                format!("fabricated-{}", line_kind(&got[i])),
+                format!("at most {n} items (the complete file has no item {i})"),
+                format!("item {i}: {}", short(&got[i])),
+            ));
+        }
+        // the virtual position after the last item read depends on whether a following block (e.g. the EOF
+        // marker) exists; it is compared for every item but the last one of the prefix
+        if got[i] != spec[i] && !(i + 1 == m && strip_vpos(&got[i]) == strip_vpos(&spec[i])) {
+            let what = if i + 1 == m { "altered-last" } else { "altered" };
+            return Err((format!("{what}-{}", line_kind(&spec[i])), format!("item {i}: {}", short(&spec[i])), format!("item {i}: {}", short(&got[i]))));
+        }
+    }
+    Ok(m)
+}
+
+fn strip_vpos(l: &str) -> &str {
+    match l.rfind(" @") {
+        Some(p) if l[p + 2..].bytes().all(|c| c.is_ascii_digit() || c == b':') => &l[..p],
+        _ => l,
+    }
+}
+
+fn fingerprint(doc: &Doc, api: &str, layer: &str, cut: &str, symptom: &str) -> String {
+    format!("format={} layer={layer} api={api} cut={cut} symptom={symptom}", doc.format)
+}
+
 fn main() {
-    println!("MACHINERY-ERROR property=C13 check not built yet");
-    std::process::exit(2);
+    vmc::run("C13", "fault_enumeration", |ctx| {
+        let docs = vnd::corpus(ctx.thorough());
+        ctx.rule("every byte offset 0..=len of every corpus document in scope (BGZF, BAM, BCF, CRAM, SAM.gz, VCF.gz, BAI, CSI, tabix, gzi, fai, crai) x reader API; the three > 64 KiB documents at every offset within 64 bytes of a block boundary plus every 251st byte; raw BAM / BCF / CSI / tabix streams at every uncompressed offset; BGZF payload through read(4096) / fill_buf / read_to_end / read(64 KiB) / read(128 KiB) / read_exact(7); distinct = distinct (document, prefix log) pairs");
+        ctx.assume("the log of the complete file (read by the same sync reader) equals what was written (decided by C05-C10)");
+        ctx.assume("CRAM documents differ byte-wise between processes (std RandomState in the CRAM writer): a replay by index addresses the same offset of a structurally identical document");
+        ctx.assume("miniz_oxide / crc32fast (re-sealing of uncompressed CSI / tabix prefixes) are correct");
+
+        let in_scope = |f: Format| matches!(f, Format::Bam | Format::Bcf | Format::Cram | Format::SamGz | Format::VcfGz | Format::Bai | Format::Csi | Format::Tbi | Format::Gzi | Format::Fai | Format::Crai);
+        let distinct: Mutex<HashSet<u64>> = Mutex::new(HashSet::new());
+        let note = |doc: usize, layer: u8, log: &[String]| {
+            let mut h = std::collections::hash_map::DefaultHasher::new();
+            (doc, layer, log).hash(&mut h);
+            distinct.lock().unwrap().insert(h.finish());
+        };
+        let mut big_cut_counts = Vec::new();
+
+        // ------------------------------------------------------------------ (a) file-level cuts
+        let mut rows: Vec<Row> = Vec::new();
+        for (i, d) in docs.iter().enumerate() {
+            if !in_scope(d.format) {
+                continue;
+            }
+            let c = cuts(d);
+            if d.big {
+                big_cut_counts.push(format!("{}: {} of {} offsets", d.name, c.len(), d.bytes.len() + 1));
+            }
+            for &api in Api::all_for(d.format) {
+                let spec = vnd::read_log(d.format, &d.bytes[..], &Opts::for_doc(d).api(api));
+                rows.push(Row { doc: i, api, cuts: c.clone(), spec });
+            }
+        }
+        let (starts, total) = starts_of(&rows);
+        {
+            let (rows, starts, docs, note) = (&rows, &starts, &docs, &note);
+            ctx.sweep(
+                "file_cuts",
+                total,
+                |i| {
+                    let (r, c) = locate(rows, starts, i);
+                    format!("doc={} api={:?} cut={} of {}", docs[rows[r].doc].name, rows[r].api, rows[r].cuts[c], docs[rows[r].doc].bytes.len())
+                },
+                |i| -> Outcome {
+                    let (r, c) = locate(rows, starts, i);
+                    let row = &rows[r];
+                    let d = &docs[row.doc];
+                    let k = row.cuts[c];
+                    let o = Opts::for_doc(d).api(row.api);
+                    let got = vnd::read_log(d.format, &d.bytes[..k], &o);
+                    note(row.doc, 0, &got);
+                    let cls = cut_class(d, k);
+                    let api = format!("{:?}", row.api);
+                    let decoded = || {
+                        format!(
+                            "doc={} ({} bytes, set {}) api={:?} truncated to {k} bytes ({cls}); complete file (hex): {}",
+                            d.name,
+                            d.bytes.len(),
+                            d.set,
+                            row.api,
+                            if d.bytes.len() <= 1600 { hex_full(&d.bytes) } else { format!("{} (regenerate with vnd::corpus)", vmc::hex(&d.bytes)) }
+                        )
+                    };
+                    let spec = &row.spec;
+                    let spec_is_err = vnd::is_end_err(spec.last().unwrap());
+                    if k == d.bytes.len() {
+                        if &got != spec {
+                            return Err(Violation::new(fingerprint(d, &api, "file", &cls, "complete-file-differs"), decoded(), "the complete log", "a different log"));
+                        }
+                        return Ok(());
+                    }
+                    if spec_is_err {
+                        // the complete file itself cannot be read with this API (crai read_index, see NOTES): only no-panic is judged
+                        return Ok(());
+                    }
+                    let ended_err = vnd::is_end_err(got.last().unwrap());
+                    if matches!(d.format, Format::Bai | Format::Gzi | Format::Csi | Format::Tbi) {
+                        // binary index: Err for every proper prefix, except where only an optional tail is missing
+                        if ended_err && got.len() == 1 {
+                            return Ok(());
+                        }
+                        let want: Option<Vec<String>> = match d.format {
+                            Format::Bai if k >= d.header_end => {
+                                let mut w = spec.clone();
+                                w[0] = strip_n_no_coor(&w[0]);
+                                Some(w)
+                            }
+                            Format::Csi | Format::Tbi if k >= last_data_member_end(d) => Some(spec.clone()),
+                            _ => None,
+                        };
+                        return match want {
+                            Some(w) if w == got => Ok(()),
+                            Some(w) => Err(Violation::new(fingerprint(d, &api, "file", &cls, "index-differs-beyond-optional-tail"), decoded(), short(&w[0]), short(&got[0]))),
+                            None => Err(Violation::new(fingerprint(d, &api, "file", &cls, "truncated-index-accepted"), decoded(), "Err", format!("Ok: {}", short(&got[0])))),
+                        };
+                    }
+                    if matches!(d.format, Format::SamGz | Format::VcfGz) && members_within(d, k) < text_header_end(d) {
+                        // the text delivered ends inside the header: it is a different, shorter header and nothing can
+                        // detect that (design scope note); only "no records, no panic" is required
+                        if got.len() <= 2 && got.iter().all(|l| l.starts_with("header:") || is_terminal(l)) {
+                            return Ok(());
+                        }
+                    }
+                    let m = match prefix_check(spec, &got) {
+                        Ok(m) => m,
+                        Err((symptom, exp, obs)) => return Err(Violation::new(fingerprint(d, &api, "file", &cls, &symptom), decoded(), exp, obs)),
+                    };
+                    if d.format == Format::Cram && (cls == "in-container" || cls == "in-eof-container-body") && !ended_err {
+                        return Err(Violation::new(
+                            fingerprint(d, &api, "file", &cls, "clean-eof-inside-container"),
+                            decoded(),
+                            "Err (the file ends inside a container)",
+                            format!("{m} items then EOF"),
+                        ));
+                    }
+                    Ok(())
+                },
+            );
+        }
+
+        // ------------------------------------------------------------------ (b) raw record / index streams
+        let mut raw_rows: Vec<Row> = Vec::new();
+        for (i, d) in docs.iter().enumerate() {
+            if !matches!(d.format, Format::Bam | Format::Bcf | Format::Csi | Format::Tbi) || d.big {
+                continue;
+            }
+            let inner = d.inner.as_ref().unwrap();
+            for &api in Api::all_for(d.format) {
+                let spec = match d.format {
+                    Format::Bam | Format::Bcf => vnd::read_log(d.format, &inner.bytes[..], &Opts::for_doc(d).api(api).raw(true).len(inner.bytes.len())),
+                    _ => vnd::read_log(d.format, &d.bytes[..], &Opts::for_doc(d).api(api)),
+                };
+                raw_rows.push(Row { doc: i, api, cuts: (0..=inner.bytes.len()).collect(), spec });
+            }
+        }
+        let (raw_starts, raw_total) = starts_of(&raw_rows);
+        {
+            let (rows, starts, docs, note) = (&raw_rows, &raw_starts, &docs, &note);
+            ctx.sweep(
+                "raw_cuts",
+                raw_total,
+                |i| {
+                    let (r, c) = locate(rows, starts, i);
+                    format!("doc={} api={:?} uncompressed stream cut at {}", docs[rows[r].doc].name, rows[r].api, rows[r].cuts[c])
+                },
+                |i| -> Outcome {
+                    let (r, c) = locate(rows, starts, i);
+                    let row = &rows[r];
+                    let d = &docs[row.doc];
+                    let inner = d.inner.as_ref().unwrap();
+                    let k = row.cuts[c];
+                    let api = format!("{:?}", row.api);
+                    let is_index = matches!(d.format, Format::Csi | Format::Tbi);
+                    let got = if is_index {
+                        // an uncompressed prefix, re-sealed as a well-formed BGZF file with EOF marker
+                        let (file, _) = vmc::oracle::bgzf::make_file(&[inner.bytes[..k].to_vec()], true, 6);
+                        vnd::read_log(d.format, &file[..], &Opts::for_doc(d).api(row.api).len(file.len()))
+                    } else {
+                        vnd::read_log(d.format, &inner.bytes[..k], &Opts::for_doc(d).api(row.api).raw(true).len(k))
+                    };
+                    note(row.doc, 1, &got);
+                    let cls = if k == inner.bytes.len() {
+                        "complete".to_string()
+                    } else if is_index {
+                        if k == inner.header_end && inner.header_end < inner.bytes.len() { "before-optional-tail".into() } else { "in-index".into() }
+                    } else if k < inner.header_end {
+                        "in-header".into()
+                    } else if k == inner.header_end || inner.record_ends.binary_search(&k).is_ok() {
+                        "record-boundary".into()
+                    } else {
+                        "in-record".into()
+                    };
+                    let decoded = || {
+                        format!(
+                            "doc={} api={:?}: uncompressed {} stream ({} bytes) cut at {k} ({cls}){}; stream (hex): {}",
+                            d.name,
+                            row.api,
+                            d.format,
+                            inner.bytes.len(),
+                            if is_index { ", re-compressed into one BGZF block + EOF marker" } else { ", fed to Reader::from(stream)" },
+                            if inner.bytes.len() <= 1600 { hex_full(&inner.bytes) } else { vmc::hex(&inner.bytes) }
+                        )
+                    };
+                    let spec = &row.spec;
+                    if k == inner.bytes.len() {
+                        if &got != spec {
+                            return Err(Violation::new(fingerprint(d, &api, "uncompressed", &cls, "complete-stream-differs"), decoded(), "the complete log", "a different log"));
+                        }
+                        return Ok(());
+                    }
+                    let ended_err = vnd::is_end_err(got.last().unwrap());
+                    if is_index {
+                        if ended_err && got.len() == 1 {
+                            return Ok(());
+                        }
+                        if k >= inner.header_end {
+                            let mut want = spec.clone();
+                            want[0] = strip_n_no_coor(&want[0]);
+                            if got != want {
+                                return Err(Violation::new(fingerprint(d, &api, "uncompressed", &cls, "index-differs-beyond-optional-tail"), decoded(), short(&want[0]), short(&got[0])));
+                            }
+                            return Ok(());
+                        }
+                        return Err(Violation::new(fingerprint(d, &api, "uncompressed", &cls, "truncated-index-accepted"), decoded(), "Err", format!("Ok: {}", short(&got[0]))));
+                    }
+                    let m = match prefix_check(spec, &got) {
+                        Ok(m) => m,
+                        Err((symptom, exp, obs)) => return Err(Violation::new(fingerprint(d, &api, "uncompressed", &cls, &symptom), decoded(), exp, obs)),
+                    };
+                    if cls == "in-record" && !ended_err {
+                        return Err(Violation::new(
+                            fingerprint(d, &api, "uncompressed", &cls, "clean-eof-inside-record"),
+                            decoded(),
+                            "Err (the stream ends inside a record)",
+                            format!("{m} items then EOF"),
+                        ));
+                    }
+                    Ok(())
+                },
+            );
+        }
+
+        // ------------------------------------------------------------------ (c) BGZF payload bytes
+        let modes: Vec<(BgzfRead, &'static str)> = vec![
+            (BgzfRead::Read(4096), "read(4096)"),
+            (BgzfRead::FillBuf, "fill_buf"),
+            (BgzfRead::ReadToEnd, "read_to_end"),
+            (BgzfRead::Read(65536), "read(65536)"),
+            (BgzfRead::Read(131072), "read(131072)"),
+            (BgzfRead::ReadExact(7), "read_exact(7)"),
+            (BgzfRead::Read(1), "read(1)"),
+        ];
+        struct BRow {
+            doc: usize,
+            mode: usize,
+            cuts: Vec<usize>,
+        }
+        let mut brows = Vec::new();
+        for (i, d) in docs.iter().enumerate() {
+            // every BGZF-framed document is also a BGZF payload stream
+            if !d.format.is_bgzf() {
+                continue;
+            }
+            if d.format != Format::Bgzf && ctx.quick() && !matches!(d.format, Format::Bam | Format::VcfGz) {
+                continue;
+            }
+            let c = cuts(d);
+            if d.big && d.format == Format::Bgzf {
+                big_cut_counts.push(format!("{}: {} of {} offsets", d.name, c.len(), d.bytes.len() + 1));
+            }
+            for m in 0..modes.len() {
+                if d.big && m == 6 {
+                    continue;
+                }
+                brows.push(BRow { doc: i, mode: m, cuts: c.clone() });
+            }
+        }
+        let mut bstarts = Vec::new();
+        let mut btotal = 0u64;
+        for r in &brows {
+            bstarts.push(btotal);
+            btotal += r.cuts.len() as u64;
+        }
+        {
+            let (rows, starts, docs, modes, distinct) = (&brows, &bstarts, &docs, &modes, &distinct);
+            let loc = |i: u64| {
+                let r = starts.partition_point(|&s| s <= i) - 1;
+                (r, (i - starts[r]) as usize)
+            };
+            ctx.sweep(
+                "bgzf_bytes",
+                btotal,
+                |i| {
+                    let (r, c) = loc(i);
+                    format!("doc={} {} cut={} of {}", docs[rows[r].doc].name, modes[rows[r].mode].1, rows[r].cuts[c], docs[rows[r].doc].bytes.len())
+                },
+                |i| -> Outcome {
+                    let (r, c) = loc(i);
+                    let row = &rows[r];
+                    let d = &docs[row.doc];
+                    let k = row.cuts[c];
+                    let (mode, mode_name) = modes[row.mode];
+                    let full = &d.inner.as_ref().unwrap().bytes;
+                    let (data, calls, res) = bgzf_read_all(&d.bytes[..k], mode, full.len() + k + 1000, full.len() + 200_000);
+                    {
+                        let mut h = std::collections::hash_map::DefaultHasher::new();
+                        (row.doc, 2u8, data.len(), res.is_ok(), calls.len()).hash(&mut h);
+                        distinct.lock().unwrap().insert(h.finish());
+                    }
+                    let cls = cut_class(d, k);
+                    let decoded = || {
+                        format!(
+                            "doc={} ({} bytes, payload {} bytes, members end at {:?}) truncated to {k} bytes ({cls}), payload pulled with bgzf::io::Reader::{mode_name} until Ok(0)/Err; file (hex): {}",
+                            d.name,
+                            d.bytes.len(),
+                            full.len(),
+                            d.item_ends,
+                            if d.bytes.len() <= 1600 { hex_full(&d.bytes) } else { format!("{} (regenerate with vnd::corpus)", vmc::hex(&d.bytes)) }
+                        )
+                    };
+                    let fp = |symptom: &str| format!("format=bgzf layer=bgzf-payload read={mode_name} cut={cls} symptom={symptom}");
+                    // what was delivered must be a prefix of the payload
+                    let common = data.iter().zip(full.iter()).take_while(|(a, b)| a == b).count();
+                    if data.len() > full.len() || common < data.len() {
+                        // classify: does the surplus repeat the previous block?
+                        // everything up to the end of the last complete block was delivered correctly and the surplus
+                        // follows it (D22: the large-buffer path returns the previous block's length again), or the
+                        // divergence lies inside the complete blocks
+                        let symptom = if common >= members_within(d, k) { "surplus-after-last-complete-block" } else { "fabricated-bytes" };
+                        let _ = repeats_previous(d, &data, common);
+                        return Err(Violation::new(
+                            fp(symptom),
+                            decoded(),
+                            format!("a prefix of the {} payload bytes, then Ok(0) or Err", full.len()),
+                            format!("{} bytes delivered in {} calls, first {} agree with the payload; outcome {}", data.len(), calls.len(), common, outcome_name(&res)),
+                        ));
+                    }
+                    if let Err(None) = res {
+                        return Err(Violation::new(fp("non-termination"), decoded(), "Ok(0) or Err after finitely many calls", format!("{} calls without end", calls.len())));
+                    }
+                    if k == d.bytes.len() && (data.len() != full.len() || res.is_err()) && !matches!(mode, BgzfRead::ReadExact(_)) {
+                        return Err(Violation::new(fp("complete-file-not-read"), decoded(), format!("{} bytes then Ok(0)", full.len()), format!("{} bytes, {}", data.len(), outcome_name(&res))));
+                    }
+                    // bytes of a member that is not completely present must not be delivered
+                    let whole: usize = members_within(d, k);
+                    if data.len() > whole {
+                        return Err(Violation::new(fp("bytes-of-incomplete-block"), decoded(), format!("at most the {whole} bytes of the complete blocks"), format!("{} bytes", data.len())));
+                    }
+                    Ok(())
+                },
+            );
+        }
+
+        let n = distinct.lock().unwrap().len() as u64;
+        ctx.add_distinct(n, n);
+        ctx.extra("big_documents_cut_subset", vmc::json!(big_cut_counts));
+        ctx.extra("documents_in_scope", vmc::json!(docs.iter().filter(|d| in_scope(d.format) || d.format == Format::Bgzf).map(|d| format!("{} ({} bytes)", d.name, d.bytes.len())).collect::<Vec<_>>()));
+    });
+}
+
+fn outcome_name(r: &Result<(), Option<std::io::Error>>) -> String {
+    match r {
+        Ok(()) => "Ok(0)".into(),
+        Err(Some(e)) => format!("Err({:?})", e.kind()),
+        Err(None) => "no end within the call cap".into(),
+    }
+}
+
+fn strip_n_no_coor(line: &str) -> String {
+    // "index: … n_no_coor=Some(2) last_first=…" -> n_no_coor=None
+    match (line.find("n_no_coor="), line.find(" last_first=")) {
+        (Some(a), Some(b)) if a < b => format!("{}n_no_coor=None{}", &line[..a], &line[b..]),
+        _ => line.to_string(),
+    }
+}
+
+/// End (uncompressed offset) of the text header of a bgzipped SAM / VCF document.
+fn text_header_end(d: &Doc) -> usize {
+    let inner = d.inner.as_ref().unwrap();
+    let marker = if d.format == Format::SamGz { b'@' } else { b'#' };
+    let mut p = 0;
+    while p < inner.bytes.len() && inner.bytes[p] == marker {
+        p += inner.bytes[p..].iter().position(|&c| c == b'\n').map(|n| n + 1).unwrap_or(inner.bytes.len() - p);
+    }
+    p
+}
+
+fn last_data_member_end(d: &Doc) -> usize {
+    let inner = d.inner.as_ref().unwrap();
+    // member i holds data iff its uncompressed start differs from the next one's
+    let mut end = 0;
+    for (i, &e) in d.item_ends.iter().enumerate() {
+        let s = inner.member_starts[i];
+        let next = inner.member_starts.get(i + 1).copied().unwrap_or(inner.bytes.len());
+        if next > s {
+            end = e;
+        }
+    }
+    end
+}
+
+/// Number of payload bytes held by the members that lie completely within the first `k` file bytes.
+fn members_within(d: &Doc, k: usize) -> usize {
+    let inner = d.inner.as_ref().unwrap();
+    let n = d.item_ends.partition_point(|&e| e <= k);
+    if n == 0 {
+        0
+    } else {
+        inner.member_starts.get(n).copied().unwrap_or(inner.bytes.len())
+    }
+}
+
+/// True if the bytes after the agreeing prefix are a copy of the block delivered before them.
+fn repeats_previous(d: &Doc, data: &[u8], common: usize) -> bool {
+    let inner = d.inner.as_ref().unwrap();
+    let i = inner.member_starts.partition_point(|&s| s <= common.saturating_sub(1));
+    if i == 0 {
+        return false;
+    }
+    let s = inner.member_starts[i - 1];
+    let e = inner.member_starts.get(i).copied().unwrap_or(inner.bytes.len());
+    let prev = &inner.bytes[s..e];
+    let extra = &data[common..];
+    // the surplus starts somewhere in a copy of prev
+    !prev.is_empty() && !extra.is_empty() && {
+        let off = common - s;
+        extra.iter().enumerate().take(64).all(|(j, &b)| b == prev[(off + j) % prev.len()]) || extra.iter().enumerate().take(64).all(|(j, &b)| b == prev[j % prev.len()])
+    }
 }
